@@ -71,3 +71,15 @@ GROUPS.append(dict(_INV, name='inv_patch_bit_bit_freq', unwind=10, timeout=5400,
     bounds='2 bits (p=1/2) + one frequency-coded symbol (ft <= 256) + ec_enc_patch_initial_bits of the 2 bits, buffer of 5 bytes',
     what='initial-bit patching: if the encoder reports no error the decoder sees the patched bits and the following symbol unchanged'))
 META = {'enforced_elsewhere': ['ec_write_byte', 'ec_write_byte_at_end', 'ec_enc_carry_out', 'ec_enc_normalize', 'ec_enc_bits', 'ec_read_byte', 'ec_read_byte_from_end', 'ec_dec_normalize']}
+# case split by the constant precision (see VERIF_FTB_CASE in contracts/entcode_contracts.h): the union over k is the contract.
+# Measured: ec_encode_bin 2 s / 3.5 s / 14 s / 208 s for bits = 1 / 2 / 4 / 6, no result in 1500 s for bits = 8 (monotonicity of the product in the
+# small operand); the ICDF operations run out of memory (12 GB) in propositional reduction.  Cases that do not finish stay 'off' and the contracts
+# stay listed as assumed where they are used.
+for _k in range(1, 17):
+    _g('ec_encode_bin', replace=['ec_enc_normalize'], timeout=1200, tier='thorough' if _k <= 6 else 'off', name='ec_encode_bin_b%d' % _k, defines=['-DVERIF_FTB=%d' % _k],
+       what='contract of ec_encode_bin enforced on the real body, case _bits == %d' % _k)
+for _k in range(1, 9):
+    _g('ec_enc_icdf', replace=['ec_enc_normalize'], timeout=3600, tier='off', name='ec_enc_icdf_f%d' % _k, defines=['-DVERIF_FTB=%d' % _k],
+       what='contract of ec_enc_icdf enforced on the real body, case _ftb == %d' % _k)
+    _d('ec_dec_icdf', replace=['ec_dec_normalize'], timeout=3600, tier='off', name='ec_dec_icdf_f%d' % _k, defines=['-DVERIF_FTB=%d' % _k],
+       what='contract of ec_dec_icdf enforced on the real body (search loop under its loop contract), case _ftb == %d' % _k)
